@@ -603,7 +603,7 @@ func (x *Exec) newCell(name string, t types.Type) *Cell {
 }
 
 func VerifyFunction(prog *Program, fn *ssa.Function, fc *FuncContract, sweep bool) (obs []*Obligation, rep *FuncReport) {
-	x := &Exec{prog: prog, fn: fn, fc: fc, obs: map[string]*Obligation{}, maxPaths: 6000,
+	x := &Exec{prog: prog, fn: fn, fc: fc, obs: map[string]*Obligation{}, maxPaths: 200000,
 		safeOrd: map[ssa.Instruction]string{}, callOrd: map[ssa.Instruction]int{}, loopOrd: map[*ssa.BasicBlock]int{},
 		abstr: map[string]bool{}, externsUsed: map[string]bool{}, sweep: sweep, opaquePtr: map[*Cell]*Term{}, fresh: map[string]bool{}, assertedSites: map[string]bool{}, elideCache: map[*ssa.BasicBlock]*ssa.BasicBlock{}}
 	if fn.Pkg != nil {
@@ -1140,6 +1140,16 @@ func (x *Exec) effectFreeBlock(arm *ssa.BasicBlock) (ok bool) {
 }
 
 func (x *Exec) effectFreeCall(c *ssa.CallCommon) bool {
+	// a callee whose contract promises something (e.g. "does not return") is never skipped
+	if f := c.StaticCallee(); f != nil {
+		key := funcKey(f)
+		if f.Origin() != nil {
+			key = funcKey(f.Origin())
+		}
+		if fc, ok := x.prog.Contracts[key]; ok && (len(fc.Ensures) > 0 || len(fc.Requires) > 0 || len(fc.GhostSets) > 0) {
+			return false
+		}
+	}
 	if c.IsInvoke() {
 		recvT := c.Value.Type()
 		if named, ok := recvT.(*types.Named); ok && named.Obj().Pkg() != nil && x.prog.Spec.PkgFrames[named.Obj().Pkg().Path()] {
